@@ -176,7 +176,8 @@ def classify(diag, text, genmap, byte_of_char=None):
             if s.get("label") and "failed precondition" in s["label"]:
                 lab, pr = lab_of_span(s)
                 res["label"] = "pre-of:%s" % (lab or "callee")
-                res["label_props"] = None
+                # a labelled precondition (e.g. of a proof-carrying identity function) is charged to the properties of its label
+                res["label_props"] = ([x for x in pr.split(",") if x] or None) if lab else None
     elif "arithmetic underflow/overflow" in low:
         res["kind"] = "overflow"
     elif "invariant not satisfied" in low:
